@@ -213,7 +213,7 @@ def main(argv):
             continue
         printed.add(key)
         print('KNOWN-FINDING: property=%s %s [%s]' % (prop, k.get('what', ''), k['obligation']))
-    outdir = os.path.join(VERIF, 'out', prop)
+    outdir = os.path.join(os.environ.get('VERIF_OUT_DIR') or os.path.join(VERIF, 'out'), prop)
     vio_groups = {}
     for o in violations:
         vio_groups.setdefault(o.name, []).append(o)
@@ -287,8 +287,9 @@ def check_ledger(prop, res):
 
 
 def write_evidence(prop, tier, seed, res, wall, violations=0, known_seen=(), error=None):
-    os.makedirs(os.path.join(VERIF, 'evidence'), exist_ok=True)
-    path = os.path.join(VERIF, 'evidence', '%s.json' % prop)
+    evdir = os.environ.get('VERIF_EVIDENCE_DIR') or os.path.join(VERIF, 'evidence')
+    os.makedirs(evdir, exist_ok=True)
+    path = os.path.join(evdir, '%s.json' % prop)
     if res is None:
         ev = {'property_id': prop, 'tier': tier, 'seed': seed, 'level': 'other',
               'coverage': {'explanation': 'checker error: %s' % error, 'obligations': 0, 'discharged': 0},
